@@ -255,6 +255,10 @@ class Repo:
                     self.modules[name] = Module(name, path, src)
                 except SyntaxError as e:
                     raise AnalysisError("cannot parse %s: %s" % (path, e))
+        from .libcanon import canon_library
+        canon_library([m.tree for m in self.modules.values()])
+        from .classcanon import canon_helper_objects
+        self.helper_objects_expanded = canon_helper_objects([m.tree for m in self.modules.values()])
         from .gencanon import canon_generators
         self.generators_rewritten = canon_generators([m.tree for m in self.modules.values()])
         for m in self.modules.values():
